@@ -72,6 +72,8 @@ type round struct {
 	f        *fox.Router
 	K        int // data routes written together with /ver
 	nA, nB   int // multi-route writers, single-op writers
+	nC       int // family writers: Update(parent) then writes below it, in one cached transaction
+	opsC     int
 	nR       int
 	procs    int
 	opsA     int
@@ -93,7 +95,38 @@ func (r *round) fail(format string, a ...any) {
 const (
 	objS = 10 // single-writer keys: object 10+i
 	objC = 30 // churn keys (Handle/Delete alternately): object 30+i
+	// family i (owner: family writer i): objects 100*(i+1)+j for /p/i, /p/i/a, /p/i/b, /p/i/a/deep
+	famSize = 4
+	// version tags of transactions that will be ABORTED: must never be observed by anybody
+	poison = uint64(1) << 40
 )
+
+var famSuffix = [famSize]string{"", "/a", "/b", "/a/deep"}
+
+func fpath(i, j int) string { return "/p/" + strconv.Itoa(i) + famSuffix[j] }
+func fobj(i, j int) int     { return 100*(i+1) + j }
+
+// parameter routes (never written during a round): infix catch-alls followed by parameters, mid-segment parameters
+var paramRoutes = []string{"/files/*{path}/meta/{id}", "/api/v{ver}/users/{uid}/x", "/dl/*{rest}/f/{name}/{id}", "/img/pre{name}/{size}"}
+
+func paramReq(k int, id string) (path string, want []string) {
+	switch k {
+	case 0:
+		return "/files/d" + id + "/e/f" + id + "/meta/" + id, []string{"path=d" + id + "/e/f" + id, "id=" + id}
+	case 1:
+		return "/api/v" + id + "/users/u" + id + "/x", []string{"ver=" + id, "uid=u" + id}
+	case 2:
+		return "/dl/x/" + id + "/y/f/n" + id + "/" + id, []string{"rest=x/" + id + "/y", "name=n" + id, "id=" + id}
+	}
+	return "/img/prei" + id + "/" + id, []string{"name=i" + id, "size=" + id}
+}
+
+func echoParams(c fox.Context) {
+	for p := range c.Params() {
+		c.Writer().Header().Add("X-P", p.Key+"="+p.Value)
+	}
+	c.Writer().WriteHeader(http.StatusOK)
+}
 
 func dpath(j int) string { return "/d/" + strconv.Itoa(j) }
 func xpath(j uint64) string { return "/x/" + strconv.FormatUint(j%3, 10) }
@@ -114,6 +147,22 @@ func (r *round) setup() {
 	for i := 0; i < r.nB; i++ {
 		must(f.Handle("POST", spat(i), handler(0), ann(0)))
 	}
+	for i := 0; i < r.nC; i++ {
+		for j := 0; j < famSize; j++ {
+			must(f.Handle("GET", fpath(i, j), handler(0), ann(0)))
+		}
+	}
+	for _, p := range paramRoutes {
+		must(f.Handle("GET", p, echoParams))
+	}
+}
+
+// a version a reader observed: tags of aborted transactions must never show up
+func (r *round) seen(o int, v uint64, how string) ov {
+	if v >= poison {
+		r.fail("%s observed, on object %d, the tag %d of a transaction that was ABORTED", how, o, v)
+	}
+	return ov{o, v}
 }
 
 var errAbort = errors.New("c05: abort")
@@ -286,6 +335,84 @@ func (r *round) writerB(tid, i int, rnd *hx.Rand, out *[]rec) {
 	}
 }
 
+// family writer i: every transaction first Updates the parent route /p/i (a node WITH children) and then rewrites
+// every route below it (Update, or Delete + Handle) inside ONE cached transaction (Txn(true) / Updates), ended by
+// Commit or Abort / error. Committed transactions carry the next version on all four routes; transactions that
+// will be aborted carry a poisoned, unique tag.
+func (r *round) writerC(tid, i int, rnd *hx.Rand, out *[]rec) {
+	ver := uint64(0)
+	for n := 0; n < r.opsC; n++ {
+		commit := rnd.Pct(60)
+		tag := ver + 1
+		if !commit {
+			tag = poison + uint64(tid)<<20 + uint64(n)
+		}
+		body := func(txn *fox.Txn) bool {
+			ok := true
+			_, err := txn.Update("GET", fpath(i, 0), handler(tag), ann(tag))
+			ok = ok && err == nil
+			order := []int{1, 2, 3}
+			if rnd.Bool() {
+				order = []int{3, 2, 1}
+			} else if rnd.Bool() {
+				order = []int{2, 1, 3}
+			}
+			for _, j := range order {
+				if rnd.Pct(55) {
+					_, err = txn.Update("GET", fpath(i, j), handler(tag), ann(tag))
+					ok = ok && err == nil
+				} else {
+					_, err = txn.Delete("GET", fpath(i, j))
+					ok = ok && err == nil
+					_, err = txn.Handle("GET", fpath(i, j), handler(tag), ann(tag))
+					ok = ok && err == nil
+				}
+				if j == 2 && rnd.Pct(15) { // the transaction reads its own writes
+					if x, _ := verOf(txn.Route("GET", fpath(i, 0))); x != tag {
+						ok = false
+					}
+				}
+			}
+			return ok
+		}
+		e := rec{tid: tid, kind: 'A'}
+		ok := false
+		e.call = clock.Add(1)
+		switch {
+		case commit && rnd.Bool():
+			e.what = "family Txn/Commit"
+			txn := r.f.Txn(true)
+			ok = body(txn)
+			txn.Commit()
+		case commit:
+			e.what = "family Updates/commit"
+			if err := r.f.Updates(func(txn *fox.Txn) error { ok = body(txn); return nil }); err != nil {
+				ok = false
+			}
+		case rnd.Bool():
+			e.what = "family Txn/Abort"
+			txn := r.f.Txn(true)
+			body(txn)
+			txn.Abort()
+		default:
+			e.what = "family Updates/error"
+			if err := r.f.Updates(func(txn *fox.Txn) error { body(txn); return errAbort }); !errors.Is(err, errAbort) {
+				r.fail("Updates did not return fn's error: %v", err)
+			}
+		}
+		e.ret = clock.Add(1)
+		if commit {
+			ver++
+			e.kind = 'W'
+			e.ok = ok
+			for j := 0; j < famSize; j++ {
+				e.vs = append(e.vs, ov{fobj(i, j), ver})
+			}
+		}
+		*out = append(*out, e)
+	}
+}
+
 type target struct {
 	method, pattern, path string
 	obj                   int
@@ -299,13 +426,18 @@ func (r *round) targets() []target {
 	for i := 0; i < r.nB; i++ {
 		ts = append(ts, target{"POST", spat(i), sreq(i), objS + i}, target{"GET", cpat(i), cpat(i), objC + i})
 	}
+	for i := 0; i < r.nC; i++ {
+		for j := 0; j < famSize; j++ {
+			ts = append(ts, target{"GET", fpath(i, j), fpath(i, j), fobj(i, j)})
+		}
+	}
 	return ts
 }
 
 // everything one loaded tree shows
 func (r *round) snapshotOf(all func(func(string, *fox.Route) bool)) []ov {
 	var vs []ov
-	nx := 0
+	nx, nf := 0, 0
 	all(func(m string, rte *fox.Route) bool {
 		v, _ := verOf(rte)
 		p := rte.Pattern()
@@ -327,11 +459,30 @@ func (r *round) snapshotOf(all func(func(string, *fox.Route) bool)) []ov {
 		case strings.HasPrefix(p, "/c/"):
 			i, _ := strconv.Atoi(p[3:strings.LastIndex(p, "/")])
 			vs = append(vs, ov{objC + i, v})
+		case strings.HasPrefix(p, "/p/"):
+			rest := p[3:]
+			suffix := ""
+			if k := strings.IndexByte(rest, '/'); k >= 0 {
+				rest, suffix = rest[:k], rest[k:]
+			}
+			i, _ := strconv.Atoi(rest)
+			nf++
+			for j := range famSuffix {
+				if famSuffix[j] == suffix {
+					vs = append(vs, ov{fobj(i, j), v})
+				}
+			}
+		}
+		if v >= poison {
+			r.fail("a snapshot shows %s with the tag %d of a transaction that was ABORTED", p, v)
 		}
 		return true
 	})
 	if nx != 1 {
 		r.fail("snapshot shows %d /x routes (a partially applied transaction)", nx)
+	}
+	if nf != famSize*r.nC {
+		r.fail("snapshot shows %d family routes instead of %d (a partially applied transaction)", nf, famSize*r.nC)
 	}
 	return vs
 }
@@ -344,29 +495,65 @@ func (r *round) reader(tid int, rnd *hx.Rand, out *[]rec, stop *atomic.Bool) {
 	for i, t := range ts {
 		reqs[i] = httptest.NewRequest(t.method, t.path, nil)
 	}
+	nreq := 0
 	for n := 0; n < r.opsR && !stop.Load(); n++ {
 		e := rec{tid: tid, kind: 'R'}
 		ti := rnd.Intn(len(ts))
 		t := ts[ti]
 		record := n%r.recEvery == 0
-		kind := rnd.Intn(100)
+		kind := rnd.Intn(125)
 		if record {
 			e.call = clock.Add(1)
 		}
 		switch {
+		case kind >= 100:
+			// a request with parameters carrying an id unique to THIS request: whatever the router hands back
+			// (to the handler through c.Params(), or to the caller of Lookup) must reproduce this request
+			e.what = "params"
+			nreq++
+			id := strconv.Itoa(tid) + "000" + strconv.Itoa(nreq)
+			pk := rnd.Intn(len(paramRoutes))
+			path, want := paramReq(pk, id)
+			req := httptest.NewRequest("GET", path, nil)
+			var got []string
+			how := "ServeHTTP"
+			if kind < 115 {
+				w := httptest.NewRecorder()
+				r.f.ServeHTTP(w, req)
+				got = w.Header().Values("X-P")
+				if w.Code != 200 {
+					got = append(got, "status="+strconv.Itoa(w.Code))
+				}
+			} else {
+				how = "Lookup"
+				rte, cc, _ := r.f.Lookup(rw, req)
+				if cc != nil {
+					for p := range cc.Params() {
+						got = append(got, p.Key+"="+p.Value)
+					}
+					cc.Close()
+				}
+				if rte == nil || rte.Pattern() != paramRoutes[pk] {
+					got = append(got, "route=nil-or-wrong")
+				}
+			}
+			if strings.Join(got, "&") != strings.Join(want, "&") {
+				r.fail("%s GET %s (route %s) by goroutine %d was given the parameters [%s], not its own [%s]",
+					how, path, paramRoutes[pk], tid, strings.Join(got, " "), strings.Join(want, " "))
+			}
 		case kind < 30:
 			e.what = "ServeHTTP"
 			w := httptest.NewRecorder()
 			r.f.ServeHTTP(w, reqs[ti])
 			if w.Code == 200 {
 				v, _ := strconv.ParseUint(w.Header().Get("X-V"), 10, 64)
-				e.vs = []ov{{t.obj, v}}
+				e.vs = []ov{r.seen(t.obj, v, e.what)}
 			}
 		case kind < 45:
 			e.what = "Lookup"
 			rte, cc, _ := r.f.Lookup(rw, reqs[ti])
 			if v, ok := verOf(rte); ok {
-				e.vs = []ov{{t.obj, v}}
+				e.vs = []ov{r.seen(t.obj, v, e.what)}
 			}
 			if cc != nil {
 				cc.Close()
@@ -375,7 +562,7 @@ func (r *round) reader(tid int, rnd *hx.Rand, out *[]rec, stop *atomic.Bool) {
 			e.what = "Reverse"
 			rte, _ := r.f.Reverse(t.method, "", t.path)
 			if v, ok := verOf(rte); ok {
-				e.vs = []ov{{t.obj, v}}
+				e.vs = []ov{r.seen(t.obj, v, e.what)}
 			}
 		case kind < 72:
 			e.what = "Route/Has"
@@ -383,13 +570,13 @@ func (r *round) reader(tid int, rnd *hx.Rand, out *[]rec, stop *atomic.Bool) {
 				_ = r.f.Has(t.method, t.pattern)
 			}
 			if v, ok := verOf(r.f.Route(t.method, t.pattern)); ok {
-				e.vs = []ov{{t.obj, v}}
+				e.vs = []ov{r.seen(t.obj, v, e.what)}
 			}
 		case kind < 86:
 			e.what = "Iter"
 			it := r.f.Iter()
 			e.vs = r.snapshotOf(it.All())
-			if l := r.f.Len(); l < r.K+2+r.nB {
+			if l := r.f.Len(); l < r.K+2+r.nB+famSize*r.nC+len(paramRoutes) {
 				r.fail("Len() = %d", l)
 			}
 		default:
@@ -430,7 +617,7 @@ func (r *round) run(rnd *hx.Rand) (events []event, dur time.Duration) {
 	r.setup()
 	old := runtime.GOMAXPROCS(r.procs)
 	defer runtime.GOMAXPROCS(old)
-	nth := r.nA + r.nB + r.nR
+	nth := r.nA + r.nB + r.nC + r.nR
 	recs := make([][]rec, nth)
 	rnds := make([]*hx.Rand, nth)
 	for i := range rnds {
@@ -460,8 +647,12 @@ func (r *round) run(rnd *hx.Rand) (events []event, dur time.Duration) {
 		tid, k := r.nA+i, i
 		guard(tid, &wgW, func() { r.writerB(tid, k, rnds[tid], &recs[tid]) })
 	}
+	for i := 0; i < r.nC; i++ {
+		tid, k := r.nA+r.nB+i, i
+		guard(tid, &wgW, func() { r.writerC(tid, k, rnds[tid], &recs[tid]) })
+	}
 	for i := 0; i < r.nR; i++ {
-		tid := r.nA + r.nB + i
+		tid := r.nA + r.nB + r.nC + i
 		guard(tid, &wgR, func() { r.reader(tid, rnds[tid], &recs[tid], &stop) })
 	}
 	t0 := time.Now()
@@ -536,21 +727,34 @@ func symptom(events []event, G int) string {
 		if e.r.kind == 'W' && !e.r.ok {
 			return fmt.Sprintf("thread %d %s: an operation of a committed write returned an unexpected result", e.r.tid, e.r.what)
 		}
-		var gv *uint64
+		gv := map[int]uint64{}
 		for _, p := range e.r.vs {
+			g := -1
 			if p.o < G {
-				if gv == nil {
-					v := p.v
-					gv = &v
-				} else if *gv != p.v {
-					return fmt.Sprintf("thread %d %s saw a partially applied transaction: versions %d and %d on routes written together", e.r.tid, e.r.what, *gv, p.v)
+				g = 0
+			} else if p.o >= 100 {
+				g = p.o / 100
+			}
+			if g >= 0 {
+				if v, ok := gv[g]; ok && v != p.v {
+					return fmt.Sprintf("thread %d %s saw a partially applied transaction: versions %d and %d on routes written together", e.r.tid, e.r.what, v, p.v)
 				}
+				gv[g] = p.v
 			}
 		}
 	}
 	cnt := map[int]uint64{}
 	for p := range seen {
 		cnt[p.o]++
+	}
+	for _, e := range events {
+		if e.ret && e.r.kind == 'R' {
+			for _, p := range e.r.vs {
+				if p.v > cnt[p.o] {
+					return fmt.Sprintf("thread %d %s saw version %d of object %d, which no committed write produced (%d committed)", e.r.tid, e.r.what, p.v, p.o, cnt[p.o])
+				}
+			}
+		}
 	}
 	for p := range seen {
 		if p.v > cnt[p.o] {
@@ -583,7 +787,7 @@ func main() {
 	nontrivial := 0
 	totalOps, totalOverlap, totalRun := 0, 0, 0
 	rounds, emitted := 0, 0
-	eventBudget := hx.Atoi(args["events"], 90000)
+	eventBudget := hx.Atoi(args["events"], 60000)
 	if tier == "thorough" && args["events"] == "" {
 		eventBudget = 900000
 	}
@@ -594,19 +798,24 @@ func main() {
 		r.K = rr.Range(1, 5)
 		r.nA = rr.Range(1, 4)
 		r.nB = rr.Range(0, 4)
-		r.nR = rr.Range(1, 8)
+		r.nC = rr.Range(0, 3)
+		r.opsC = rr.Range(10, 50)
+		r.nR = rr.Range(2, 8)
 		r.procs = hx.Pick(rr, procsChoices)
 		r.opsA = rr.Range(10, 60)
 		r.opsB = rr.Range(20, 120)
 		r.opsR = rr.Range(200, 1500)
 		if tier == "thorough" {
-			r.opsA, r.opsB, r.opsR = r.opsA*2, r.opsB*2, r.opsR*4
+			r.opsA, r.opsB, r.opsC, r.opsR = r.opsA*2, r.opsB*2, r.opsC*2, r.opsR*4
 		}
 		if k%7 == 6 { // reader-heavy / writer-heavy extremes
 			r.nR, r.nA = 12, 1
 		}
 		if k%7 == 3 {
 			r.nR, r.nA, r.nB = 2, 4, 4
+		}
+		if k%3 == 1 && r.nC == 0 {
+			r.nC = 2
 		}
 		// every read runs (under the race detector); at most ~readBudget of them are recorded in the
 		// history given to Coq (dropping reads from a history keeps it a valid history); writes always are
@@ -638,10 +847,10 @@ func main() {
 		overlap = len(hit)
 		totalOverlap += overlap
 		totalOps += len(events) / 2
-		totalRun += r.nA*r.opsA + r.nB*r.opsB + r.nR*r.opsR
-		nontriv := r.nA+r.nB >= 2 && overlap > 0
-		cfg := fmt.Sprintf("round %d seed=%d K=%d writersA=%d writersB=%d readers=%d GOMAXPROCS=%d ops=%d reads-overlapping-a-commit=%d dur=%s",
-			k, r.seed, r.K, r.nA, r.nB, r.nR, r.procs, len(events)/2, overlap, dur.Round(time.Millisecond))
+		totalRun += r.nA*r.opsA + r.nB*r.opsB + r.nC*r.opsC + r.nR*r.opsR
+		nontriv := r.nA+r.nB+r.nC >= 2 && overlap > 0
+		cfg := fmt.Sprintf("round %d seed=%d K=%d writersA=%d writersB=%d writersC=%d readers=%d GOMAXPROCS=%d ops=%d reads-overlapping-a-commit=%d dur=%s",
+			k, r.seed, r.K, r.nA, r.nB, r.nC, r.nR, r.procs, len(events)/2, overlap, dur.Round(time.Millisecond))
 		human := cfg
 		if msg, _ := r.badMsg.Load().(string); msg != "" {
 			human += " FAILURE: " + msg
@@ -665,7 +874,8 @@ func main() {
 		term := fmt.Sprintf("(%d, %s, %s)", r.G(), hx.ListOf(events, coqEvent), hx.Bool(r.bad.Load()))
 		cs.Add(term, human)
 		st.Count(fmt.Sprintf("GOMAXPROCS:%02d", r.procs))
-		st.Count(fmt.Sprintf("writers:%d", r.nA+r.nB))
+		st.Count(fmt.Sprintf("writers:%d", r.nA+r.nB+r.nC))
+		st.Count(fmt.Sprintf("family-writers:%d", r.nC))
 		st.Count(fmt.Sprintf("readers:%02d", r.nR))
 		st.Count(fmt.Sprintf("txn-routes:%d", r.K+3))
 		if len(st.Samples) < 5 {
